@@ -65,7 +65,8 @@ pub fn random_spec(g: &mut Sm, a: usize, tick: u32, first: u32, kinds: &[u8]) ->
     let n = 1 + g.below(5) as u16;
     match *g.pick(kinds) {
         0 => {
-            let lo = 1 + g.below(40) as u32;
+            // (tick 0 is inside a range that starts at 0: a sell quoted there carries the market sentinel price)
+            let lo = if g.chance(1, 6) { 0 } else { 1 + g.below(40) as u32 };
             AgentSpec::Random { a, n: n as usize, tick_range: (lo, lo + 1 + g.below(12) as u32), vol_range: { let v = 1 + g.below(20) as u32; (v, v + 1 + g.below(10) as u32) }, tick, rate: *g.pick(&[0.0f32, 0.5, 0.8, 1.0, 2.0]) }
         }
         1 => AgentSpec::Noise { a, first, n, tick, p_limit: *g.pick(&probs), p_market: *g.pick(&probs), p_cancel: *g.pick(&[0.0f32, 0.1, 0.5, 1.0]),
